@@ -44,6 +44,7 @@ type CtlListener struct {
 	parked     bool
 	enters     int
 	unarmedEnters int
+	closedReturns int // Accept calls that returned the closed error
 	hookSetDeadline func()
 	hookBeforeConn  func()
 }
@@ -103,6 +104,7 @@ func (l *CtlListener) Accept() (net.Conn, error) {
 	}
 	l.parked = false
 	if l.closed {
+		l.closedReturns++
 		l.rec("accept-return", "closed")
 		l.mu.Unlock()
 		return nil, &net.OpError{Op: "accept", Net: "ctl", Addr: ctlAddr{}, Err: net.ErrClosed}
